@@ -26,7 +26,7 @@ VARIABLES scopes,  \* Seq([kind, id, pend]) innermost last; pend = Seq([id, h]) 
           out, hist
 
 vars == <<scopes, n, fin, out, hist>>
-View == <<[i \in 1..Len(scopes) |-> [kind |-> scopes[i].kind, pend |-> [j \in 1..Len(scopes[i].pend) |-> scopes[i].pend[j].h]]],
+View == <<[i \in 1..Len(scopes) |-> [kind |-> scopes[i].kind, hk |-> scopes[i].hk, pend |-> [j \in 1..Len(scopes[i].pend) |-> scopes[i].pend[j].h]]],
           n, fin, [j \in 1..(IF n < ViewHist THEN n ELSE ViewHist) |-> hist[n + 1 - j].a]>>
 
 Emit(v) == PrintT(<<"@@", ToJson(v)>>)
